@@ -13,16 +13,26 @@ META = {
     'text': 'Properties_C01.v proves, for every tree, handler state and message (and lifted to every message '
             'sequence): the nesting equation, child-never-stops-parent, scoped restore (fmt incl. None/Some [], '
             'attrs; text/type immutable), reject-skips-rest, sibling independence, executed handlers = in-order '
-            'traversal cut at rejections (inductive Trav, decided by trav_b), sink-gets-latest, unscoped = inline. '
+            'traversal cut at rejections (inductive Trav, decided by trav_b), sink-gets-latest, unscoped = inline; '
+            'typed attribute values (QString/int/bool/double/QByteArray, compared strictly): the delivered attribute '
+            'map carries exactly the LAST written (type, value) per key (C01_last_write_wins / '
+            'C01_sink_sees_last_write / C01_untouched_key_kept); histories of messages interleaved with structural '
+            'edits of any pipeline of the tree (append/<</fluent, append(list), remove, clear, typed SortedPipeline '
+            'calls, clear<Class>): every message is evaluated on the tree as it is at that moment (C01_steps_nth, '
+            'C01_steps_lifts, C01_steps_oracle_holds, edit locality lemmas). '
             'The theorems are about run src_cfg where src_cfg is re-read from the C++ on every run; the same '
             'function is extracted and compared event by event with the real library on generated trees.',
     'note': 'Trusted: Coq 8.16.1 kernel (vm_compute only for the closed configuration check and the examples), no '
             'axioms; tools/s2c/pipeline.py (regex translation, anchored on the normalised text of Pipeline::process, '
-            'AttrHandler/Filter/Formatter/Sink/FunctionHandler::process, LogMessage accessors, '
-            'SimplePipeline::pipeline/end); extraction (ExtrOcamlBasic only) + ocaml/drv_pipeline.ml; '
+            'AttrHandler/Filter/Formatter/Sink/FunctionHandler::process, LogMessage accessors incl. setAttribute/'
+            'removeAttribute, SimplePipeline::pipeline/end and fluent appends, Pipeline::remove/clear/operator<<, the '
+            'SortedPipeline typed calls whose placement rule apply_op re-states (C17 proves the class order)); extraction (ExtrOcamlBasic only) + ocaml/drv_pipeline.ml; '
             'harness/h_pipeline.cpp (scripted std::function behaviours, logging subclasses of '
             'SeqNumberAttr/DuplicateFilter/LevelFilter that call the real virtual). Modelled, not verified: '
             'QList/QSharedPointer/QVariantHash/QString mechanics; handlers are the closed scripted vocabulary '
+            'QVariant is modelled by five value types with strict equality (Qt5\'s loose operator== is deliberately NOT '
+            'the observation); typed SortedPipeline calls on a list holding a null entry are outside (x->type() on a '
+            'null pointer), the generator never makes them; '
             '(any user handler is some composition of: merge/set/remove attributes, read shown text, set/empty/null '
             'the formatted text, accept/reject, deliver); handlers that throw or keep references are outside.',
     'design_ref': 'DESIGN.md section 4, C01',
@@ -30,6 +40,7 @@ META = {
 }
 
 LAWS = {1: 'order', 2: 'scoped-restore', 3: 'delivery-content', 4: 'latest-effect', 9: 'missing-trace'}
+# further kinds: root-return, inline, crash, harness-error, edit-structure (the real lists after an edit do not have the shape apply_edit predicts)
 
 
 # ------------------------------------------------------------------------------------ encoding
@@ -510,7 +521,9 @@ class Runner:
         _, digits, _ = vlib.run_lines(self.model, orc_in, ['oracle'])
         digits += [''] * (n - len(digits))
         for i, (o, d) in enumerate(zip(impl_out, digits)):
-            if o.startswith('!ERR') or d.startswith('!ERR'):
+            if o.startswith('!ERR edit path') and not d.startswith('!ERR'):
+                res[i] = ('edit-structure', 'an edit addresses a pipeline that the tree predicted by the earlier edits has at that place, the real tree has none there (an earlier edit left the real lists in another shape)')
+            elif o.startswith('!ERR') or d.startswith('!ERR'):
                 res[i] = ('harness-error', (o + ' ' + d)[:200])
             elif o.startswith('!BAD '):
                 res[i] = ('root-return', 'the root Pipeline::process returned false, or end() did not return the parent')
